@@ -416,6 +416,179 @@ fn ede_texts(m: &dns::Message) -> Option<Vec<String>> {
         .map(|e| e.options.iter().filter(|o| o.0 == 15).map(|o| String::from_utf8_lossy(&o.1[2.min(o.1.len())..]).to_string()).collect::<Vec<_>>())
 }
 
+/// One TCP client that is slow to finish its query must not hold up the others.  Client A
+/// connects and writes the first `cut` octets of its framed query, then waits; clients B (TCP,
+/// complete queries, on their own connections) and C (UDP) ask meanwhile and must be answered
+/// *while A is still pending*; only then (or after 10 s) A writes the rest and must get its own
+/// answer too.  Every message is well-formed; the only thing unusual is the order of arrival.
+#[derive(Clone, Debug, Serialize, Deserialize, PartialEq)]
+pub struct SlowWriterCase {
+    pub listener: u8,
+    /// octets of A's frame (2-octet length prefix + query) written before it pauses; 0: A
+    /// connects and writes nothing yet
+    pub cut: u8,
+    /// number of B clients
+    pub others: u8,
+}
+
+impl C07Conc {
+    pub fn run_slow_writer(&self, c: &SlowWriterCase) -> Outcome {
+        use std::io::{Read, Write};
+        use std::sync::atomic::{AtomicBool, AtomicUsize, Ordering};
+        let mut out = Outcome::default();
+        out.nontrivial = true;
+        out.class("one-tcp-client-pauses-in-mid-query");
+        let listen_ip: IpAddr = match c.listener {
+            0 => IpAddr::V4(Ipv4Addr::LOCALHOST),
+            1 => IpAddr::V4(Ipv4Addr::UNSPECIFIED),
+            2 => IpAddr::V6(Ipv6Addr::LOCALHOST),
+            _ => IpAddr::V6(Ipv6Addr::UNSPECIFIED),
+        };
+        let port = crate::netns::free_port(listen_ip);
+        let routes = "dns-routes:\n  - domain-suffixes: [\"\"]\n    type: forward\n    dns-servers: [127.0.1.1]\n";
+        let conf = dns_config(&[SocketAddr::new(listen_ip, port)], routes, None);
+        let dst = SocketAddr::new(
+            match c.listener {
+                0 | 1 => IpAddr::V4(Ipv4Addr::LOCALHOST),
+                _ => IpAddr::V6(Ipv6Addr::LOCALHOST),
+            },
+            port,
+        );
+        let server = match DnsServer::start(&conf, dst, "warn") {
+            Ok(s) => s,
+            Err(e) => {
+                out.fail("rig-error", e);
+                return out;
+            }
+        };
+        let question = |tag: &str| dns::Question {
+            name: vec![unique_label(), tag.as_bytes().to_vec(), b"slow".to_vec(), b"test".to_vec()],
+            qtype: 1,
+            qclass: 1,
+        };
+        let frame = |id: u16, q: &dns::Question| -> Vec<u8> {
+            let b = dns::encode(&dns::query(id, &q.name, 1, 1, true, None), dns::Compress::Off);
+            let mut f = (b.len() as u16).to_be_bytes().to_vec();
+            f.extend_from_slice(&b);
+            f
+        };
+        let read_reply = |s: &mut std::net::TcpStream, wait: Duration| -> Option<Vec<u8>> {
+            s.set_read_timeout(Some(wait)).ok()?;
+            let mut lb = [0u8; 2];
+            s.read_exact(&mut lb).ok()?;
+            let mut b = vec![0u8; u16::from_be_bytes(lb) as usize];
+            s.read_exact(&mut b).ok()?;
+            Some(b)
+        };
+        let own_answer = |bytes: &[u8], id: u16, q: &dns::Question| -> Result<(), String> {
+            let (m, _) = dns::decode(bytes).map_err(|e| format!("undecodable: {}", e))?;
+            let want = answer_for(q);
+            if m.header.id == id && m.questions == vec![q.clone()] && m.full_rcode() == 0 && m.answer.len() == 1 && m.answer[0].rdata == want.rdata {
+                Ok(())
+            } else {
+                Err(format!("id {:#x} rcode {} question {:?} answers {:?}", m.header.id, m.full_rcode(), m.questions, m.answer))
+            }
+        };
+        // A: connect and write the first part
+        let qa = question("a");
+        let fa = frame(0x7a00, &qa);
+        let mut a = match std::net::TcpStream::connect_timeout(&dst, Duration::from_secs(3)) {
+            Ok(s) => s,
+            Err(e) => {
+                out.fail("rig-error", format!("connect: {}", e));
+                return out;
+            }
+        };
+        a.set_nodelay(true).ok();
+        let cut = (c.cut as usize).min(fa.len() - 1);
+        if cut > 0 && a.write_all(&fa[..cut]).is_err() {
+            out.fail("rig-error", "write");
+            return out;
+        }
+        std::thread::sleep(Duration::from_millis(150));
+        // B..: complete queries on their own connections, and one UDP query, while A is pending
+        let a_completed = AtomicBool::new(false);
+        let answered_while_pending = AtomicUsize::new(0);
+        let n = c.others.max(1) as usize;
+        let results: Vec<Result<bool, String>> = std::thread::scope(|sc| {
+            let hs: Vec<_> = (0..=n)
+                .map(|i| {
+                    let (a_completed, answered_while_pending) = (&a_completed, &answered_while_pending);
+                    let q = question(&format!("b{}", i));
+                    let f = frame(0x7b00 + i as u16, &q);
+                    sc.spawn(move || -> Result<bool, String> {
+                        let bytes = if i == n {
+                            // the UDP client
+                            let got = udp_exchange(dst.ip(), dst, &f[2..], Duration::from_secs(25), Duration::from_millis(10)).map_err(|e| e)?;
+                            got.first().map(|g| g.bytes.clone())
+                        } else {
+                            let mut s = std::net::TcpStream::connect_timeout(&dst, Duration::from_secs(3)).map_err(|e| format!("connect: {}", e))?;
+                            s.set_nodelay(true).ok();
+                            s.write_all(&f).map_err(|e| e.to_string())?;
+                            read_reply(&mut s, Duration::from_secs(25))
+                        };
+                        let while_pending = !a_completed.load(Ordering::SeqCst);
+                        match bytes {
+                            None => Err(format!("{} client {} got no response at all", if i == n { "UDP" } else { "TCP" }, i)),
+                            Some(b) => {
+                                own_answer(&b, 0x7b00 + i as u16, &q).map_err(|e| format!("client {}: not its own answer: {}", i, e))?;
+                                if while_pending {
+                                    answered_while_pending.fetch_add(1, Ordering::SeqCst);
+                                }
+                                Ok(while_pending)
+                            }
+                        }
+                    })
+                })
+                .collect();
+            // A waits until all the others were answered, at most 10 s, then completes its query
+            let t0 = std::time::Instant::now();
+            while answered_while_pending.load(Ordering::SeqCst) <= n && t0.elapsed() < Duration::from_secs(10) {
+                std::thread::sleep(Duration::from_millis(20));
+            }
+            a_completed.store(true, Ordering::SeqCst);
+            let _ = a.write_all(&fa[cut..]);
+            hs.into_iter().map(|h| h.join().unwrap()).collect()
+        });
+        for (i, r) in results.iter().enumerate() {
+            match r {
+                Err(e) => {
+                    out.fail(if e.contains("not its own") { "C07:not-its-own-answer" } else { "C07:no-response:behind-a-slow-tcp-client" }, e.clone());
+                    return out;
+                }
+                Ok(false) => {
+                    out.fail(
+                        "C07:response-held-back-by-another-connection",
+                        format!(
+                            "client {} ({}) sent a complete query while another TCP client had written {} of the {} octets of its own; it was answered only after that client completed its query, 10 s later",
+                            i,
+                            if i == n { "UDP" } else { "TCP" },
+                            cut,
+                            fa.len()
+                        ),
+                    );
+                    return out;
+                }
+                Ok(true) => {}
+            }
+        }
+        match read_reply(&mut a, Duration::from_secs(12)) {
+            None => out.fail("C07:no-response:slow-tcp-client", format!("the client that paused after {} octets got no response after completing its query", cut)),
+            Some(b) => {
+                if let Err(e) = own_answer(&b, 0x7a00, &qa) {
+                    out.fail("C07:not-its-own-answer", format!("slow client: {}", e));
+                }
+            }
+        }
+        if out.fail.is_none() {
+            if let Some(p) = server.panics().first() {
+                out.fail("server-panic", p.clone());
+            }
+        }
+        out
+    }
+}
+
 impl WireProp for C07Conc {
     type Case = ConcCase;
     fn sub(&self) -> &'static str {
@@ -595,6 +768,20 @@ pub fn run_c07(ctx: &Ctx) {
             }
         }
     }
+    // a TCP client that pauses in mid-query while others ask
+    for (i, cut) in [0u8, 1, 2, 3, 20].iter().enumerate() {
+        let case = SlowWriterCase { listener: (i % 4) as u8, cut: *cut, others: 3 };
+        let out = prop.run_slow_writer(&case);
+        ctx.record("slow-writer", &case, &out);
+        if let Some(f) = out.fail {
+            if ctx.is_known(&f.sig) {
+                ctx.known_hit(&f.sig);
+            } else {
+                ctx.violation("slow-writer", &f, &case);
+                return;
+            }
+        }
+    }
     // a reply that comes later than anybody waits for it: one TCP-path query whose upstream reply
     // takes 11.5 s (SERVFAIL or the answer, either is fine), then, once that reply has arrived on
     // the shared upstream connection, more queries that travel the same connection: each must
@@ -665,6 +852,13 @@ pub fn run_c07(ctx: &Ctx) {
 
 pub fn replay(id: &str, sub: &str, case: &serde_json::Value) -> Option<Result<Outcome, String>> {
     match (id, sub) {
+        ("C07", "slow-writer") => {
+            let prop = match C07Conc::new() {
+                Ok(p) => p,
+                Err(e) => return Some(Err(format!("wire rig unavailable: {}", e))),
+            };
+            Some(serde_json::from_value::<SlowWriterCase>(case.clone()).map_err(|e| e.to_string()).map(|c| prop.run_slow_writer(&c)))
+        }
         ("C07", "concurrent") => {
             let prop = match C07Conc::new() {
                 Ok(p) => p,
